@@ -319,6 +319,83 @@ def zero_guard(P, fn, bi, divisor_op):
     return None
 
 
+def loop_nonempty_guard(P, fn, bi, divisor_op):
+    """The division sits in the body of a loop that pulls from a vector X, and before the loop
+    `if X.len() != 0 && d == 0 { leave }` (in any of its spellings) runs: inside the body X is non-empty, so the zero test
+    was taken. Machine-checked shape: (1) a natural loop containing the site pulls from an iterator built from a Vec local;
+    (2) a switch S on the emptiness of that Vec dominates the loop header; (3) on S's non-empty edge every path to the header
+    passes a switch on `d == 0` whose zero edge never reaches the header."""
+    import r_term
+    from origins import backward_slice
+    from mirutil import copy_root
+    ol = op_local(divisor_op)
+    if not ol:
+        return None
+    vd = value_id(fn, ol[0])
+    for h, body in r_term.natural_loops(P, fn):
+        if bi not in body:
+            continue
+        vecs = set()
+        for b in body:
+            t = fn.blocks[b]["t"]
+            if t["k"] == "call" and t.get("f") and t["f"]["id"].endswith("Iterator::next") and t["args"]:
+                a0 = op_local(t["args"][0])
+                if a0:
+                    locs, _ = backward_slice(fn, a0[0])
+                    vecs |= {l for l in locs if P.local_ty(fn, l).startswith("alloc::vec::Vec<")}
+        if not vecs:
+            continue
+        # emptiness tests on one of those vectors
+        meaning = {}
+        for b2, t2 in P.calls(fn):
+            f2 = t2.get("f")
+            if f2 and f2["name"].endswith(("Vec::<T, A>::len", "Vec::<T, A>::is_empty")) and t2["args"] and not t2["d"][1]:
+                a0 = op_local(t2["args"][0])
+                srcs = backward_slice(fn, a0[0])[0] | {a0[0]} if a0 else set()
+                if srcs & vecs:
+                    meaning[t2["d"][0]] = "len" if f2["name"].endswith("len") else "empty"
+        for b in fn.blocks:
+            for st in b["s"]:
+                if st[0] == "a" and not st[1][1] and st[2]["k"] == "bin" and st[2]["op"] in ("Eq", "Ne", "Gt") \
+                        and st[2]["b"][0] == "k" and isinstance(st[2]["b"][1], dict) and st[2]["b"][1].get("val") == 0:
+                    la = op_local(st[2]["a"])
+                    if la and meaning.get(copy_root(fn, la[0])) == "len":
+                        meaning[st[1][0]] = "empty" if st[2]["op"] == "Eq" else "nonempty"
+        for si, sb in enumerate(fn.blocks):
+            tt = sb["t"]
+            if tt["k"] != "switch" or not P.dominates(fn, si, h):
+                continue
+            so = op_local(tt["o"])
+            m = meaning.get(so[0]) or meaning.get(copy_root(fn, so[0])) if so else None
+            if not m:
+                continue
+            zero = [tb for v, tb in tt["t"] if v == 0]
+            other = [tt["else"]] + [tb for v, tb in tt["t"] if v != 0]
+            nonempty_edge = other if m in ("len", "nonempty") else zero
+            # zero tests of the divisor
+            tests = []
+            for zi, zb in enumerate(fn.blocks):
+                zt = zb["t"]
+                if zt["k"] != "switch":
+                    continue
+                zo = op_local(zt["o"])
+                for st in zb["s"]:
+                    if st[0] == "a" and zo and st[1][0] == zo[0] and st[2]["k"] == "bin" and st[2]["op"] in ("Eq", "Ne"):
+                        la = op_local(st[2]["a"])
+                        if la and value_id(fn, la[0]) == vd and st[2]["b"][0] == "k" and isinstance(st[2]["b"][1], dict) and st[2]["b"][1].get("val") == 0:
+                            zedge = [zt["else"]] if st[2]["op"] == "Eq" else [tb for v, tb in zt["t"] if v == 0]
+                            tests.append((zi, zedge))
+            if not tests:
+                continue
+            if h in P.reach(fn, nonempty_edge, stop={z for z, _ in tests}):
+                continue
+            if any(h in P.reach(fn, ze) for _, ze in tests):
+                continue
+            return ("the loop pulls from a vector whose emptiness is tested before it; on the non-empty edge the divisor's zero test "
+                    "leaves before the loop (an empty vector never reaches the division)")
+    return None
+
+
 def load_ledger():
     import os
     from facts import VERIF
@@ -358,7 +435,7 @@ def run(P, rep, scope=None, rule="R-ARITH", reach=None):
             site = "%s %s#%d" % (fn.key, kind, o)
             where = P.where(fn, line)
             if kind in ("DivisionByZero", "RemainderByZero"):
-                g = zero_guard(P, fn, bi, ops[0]) or closure_param_zero_guard(P, fn, ops[0])
+                g = zero_guard(P, fn, bi, ops[0]) or closure_param_zero_guard(P, fn, ops[0]) or loop_nonempty_guard(P, fn, bi, ops[0])
                 if g:
                     rep.ok("R-DIV", site, where, g)
                 elif tainted:
